@@ -109,6 +109,7 @@ def run(rep, tier):
     install_module_rule(rep)
     # late binding at the leaf: Ref skeleton callee
     late_binding(rep)
+    ancestors_read_fresh(rep)
     from .. import controls
     controls.route_controls(rep)
 
@@ -147,3 +148,22 @@ def late_binding(rep):
                             'sourcer/expressions/ref.py:Ref.argumentize'))
     rep.count('Ref configurations (callee form)', n)
     rep.floor('Ref configurations (callee form)', n, 12)
+
+
+def ancestors_read_fresh(rep):
+    """What a sub-grammar inherits (rule names, start, ignore patterns) is decided at translation time from the
+    ancestor's description; the emitted module binds to the ancestor module that is installed *now*. Both views agree
+    only if grammar.py reads the ancestor afresh on every Grammar() call: no function of grammar.py may keep anything
+    in an object that outlives the call (lexical store rule of C18, same single exception: sys.modules)."""
+    from .. import sharedstate, load
+    from . import C18
+    rep.rule('INHERIT-no-cache', 'grammar.py keeps nothing between Grammar() calls: the parsed description of an ancestor '
+                                 'is derived from the module installed under its name at the time of the call '
+                                 '(a cache keyed by name would compile a sub-grammar against a stale ancestor)')
+    rel = 'sourcer/grammar.py'
+    found, n = sharedstate.scan(load.parse(rel), rel, allow=set(C18.ALLOW))
+    rep.count('grammar.py functions scanned for stores that outlive the call', n)
+    rep.floor('grammar.py functions scanned for stores that outlive the call', n, 4)
+    rep.oblige(not found, max(n, 1))
+    for rule, qual, msg in found:
+        rep.add(Finding('INHERIT-no-cache', f'{rel}:{qual}', '', msg, f'{rel}:{qual}'))
